@@ -21,6 +21,7 @@ class O:
     items: List["O"] = field(default_factory=list)
     ref: Optional["O"] = None
     s: frozenset = frozenset()
+    w: Optional[int] = None
 
     def __repr__(self):
         return self.name
@@ -51,6 +52,7 @@ def make_world():
         o.items = [w[i] for i in items[n]]
         o.ref = w[ref[n]]
         o.s = sets[n]
+        o.w = {"o1": 0, "o2": 1, "o3": None, "o4": 1}[n]
     return w
 
 
